@@ -38,7 +38,14 @@ func freshError(e *Engine, s *State) *Val {
 }
 
 func lockKey(e *Engine, a *Val) (string, *Addr) {
-	if a.A == nil || (a.A.K != AField && a.A.K != AGlobal) {
+	if a.A == nil {
+		if len(a.L) == 1 {
+			// a lock reached through a pointer value (shared *sync.Mutex): identified by the pointer
+			return "P@" + a.L[0], &Addr{K: ACell, Base: a.L[0]}
+		}
+		return "", nil
+	}
+	if a.A.K != AField && a.A.K != AGlobal {
 		return "", nil
 	}
 	return a.A.Key(), a.A
